@@ -105,6 +105,8 @@ def run(check, mirror, tier):
                                                   prefer=lambda inp: U.replayable_pref(inp["_entry"])))
     from checks import C11_itemdef
     C11_itemdef.jobs_for(check, mirror, rb, crate, U, jobs, tier, KNOWN_PRED)
+    from checks import C11_output
+    C11_output.jobs_for(check, mirror, rb, crate, U, jobs, tier, KNOWN_PRED)
     run_parallel(check, jobs)
 
 
